@@ -892,6 +892,34 @@ func rpSeq(x any) ([]int64, bool) {
 	return nil, false
 }
 
+// rpB marks a sequence of bytes (string / []byte contents) as opposed to runes or plain integers: the two
+// are decoded differently by runes().
+type rpB []int64
+
+func rpIsBytes(x any) bool {
+	if x == nil {
+		return false
+	}
+	if _, ok := x.(rpB); ok {
+		return true
+	}
+	v := reflect.ValueOf(x)
+	switch v.Kind() {
+	case reflect.String:
+		return true
+	case reflect.Slice:
+		return v.Type().Elem().Kind() == reflect.Uint8
+	}
+	return false
+}
+
+func rpKeep(like any, s []int64) any {
+	if rpIsBytes(like) {
+		return rpB(s)
+	}
+	return s
+}
+
 func rpIsNil(x any) bool {
 	if x == nil {
 		return true
@@ -981,7 +1009,7 @@ func rpArith(op string, a, b any) any {
 		s, oks := rpSeq(a)
 		t, okt := rpSeq(b)
 		if oks && okt {
-			return append(append([]int64{}, s...), t...)
+			return rpKeep(a, append(append([]int64{}, s...), t...))
 		}
 	}
 	panic("rp: arithmetic on unsupported operands")
@@ -1078,12 +1106,12 @@ func rpSlice(a, lo, hi any) any {
 	if hi != nil {
 		h, _ = rpInt(hi)
 	}
-	return append([]int64{}, s[l:h]...)
+	return rpKeep(a, append([]int64{}, s[l:h]...))
 }
 
 func rpSnap(a any) any {
 	if s, ok := rpSeq(a); ok && !rpIsNil(a) {
-		return append([]int64{}, s...)
+		return rpKeep(a, append([]int64{}, s...))
 	}
 	return a
 }
@@ -1100,9 +1128,14 @@ func rpQuant(all bool, lo, hi any, body func(i any) any) any {
 }
 
 func rpRunes(a any) any {
-	if s, ok := a.(string); ok {
+	if rpIsBytes(a) {
+		bs, _ := rpSeq(a)
+		b := make([]byte, len(bs))
+		for i, x := range bs {
+			b[i] = byte(x)
+		}
 		out := []int64{}
-		for _, r := range s {
+		for _, r := range string(b) {
 			out = append(out, int64(r))
 		}
 		return out
@@ -1112,8 +1145,9 @@ func rpRunes(a any) any {
 }
 
 func rpStr(a any) any {
-	if s, ok := a.(string); ok {
-		return s
+	if rpIsBytes(a) {
+		bs, _ := rpSeq(a)
+		return rpB(bs)
 	}
 	s, _ := rpSeq(a)
 	rs := make([]rune, len(s))
@@ -1121,6 +1155,19 @@ func rpStr(a any) any {
 		rs[i] = rune(x)
 	}
 	return string(rs)
+}
+
+func rpGoStr(a any) string {
+	x := rpStr(a)
+	if s, ok := x.(string); ok {
+		return s
+	}
+	bs, _ := rpSeq(x)
+	b := make([]byte, len(bs))
+	for i, v := range bs {
+		b[i] = byte(v)
+	}
+	return string(b)
 }
 
 func rpPanicAt(fileLine string) bool {
@@ -1148,6 +1195,7 @@ func rpPanicAt(fileLine string) bool {
 // contract expression -> Go (dynamically typed through the rp* helpers)
 
 type goCompiler struct {
+	staticTypes map[string]types.Type
 	rp      *replayer
 	params  map[string]bool
 	results []string
@@ -1312,54 +1360,108 @@ func (g *goCompiler) compile(e Expr, env map[string]string) (string, error) {
 	return "", fmt.Errorf("expression form %T", e)
 }
 
-// static renders an access path rooted at a parameter or result as plain Go (p.f, *p, p.f[i]).
+// static renders an access path rooted at a parameter or result as plain Go (p.f, *p, p.f[i]); it follows the
+// Go types so that a field the test's package cannot name (unexported, other package) is rejected.
 func (g *goCompiler) static(e Expr, env map[string]string) (string, error) {
+	code, _, err := g.staticT(e, env)
+	return code, err
+}
+
+func (g *goCompiler) rootType(name string) types.Type {
+	for _, p := range g.rp.fn.Params {
+		if p.Name() == name {
+			return p.Type()
+		}
+	}
+	return nil
+}
+
+func (g *goCompiler) staticT(e Expr, env map[string]string) (string, types.Type, error) {
 	switch x := e.(type) {
 	case EIdent:
 		if v, bound := env[x.Name]; bound {
 			if strings.HasPrefix(v, "\x00") {
-				return v[1:], nil
+				return v[1:], g.staticTypes[v[1:]], nil
 			}
-			return "", fmt.Errorf("bound variable")
+			return "", nil, fmt.Errorf("bound variable")
 		}
 		if g.params[x.Name] {
-			return x.Name, nil
+			return x.Name, g.rootType(x.Name), nil
 		}
+		res := g.rp.fn.Signature.Results()
+		idx := -1
 		if x.Name == "result" && len(g.results) >= 1 {
-			return g.results[0], nil
-		}
-		if strings.HasPrefix(x.Name, "result") {
+			idx = 0
+		} else if strings.HasPrefix(x.Name, "result") {
 			if n, err := strconv.Atoi(x.Name[6:]); err == nil && n < len(g.results) {
-				return g.results[n], nil
+				idx = n
 			}
 		}
-		return "", fmt.Errorf("not a parameter")
-	case ESel:
-		a, err := g.static(x.X, env)
-		if err != nil {
-			return "", err
+		if idx >= 0 && idx < res.Len() {
+			return g.results[idx], res.At(idx).Type(), nil
 		}
-		return a + "." + x.Name, nil
+		return "", nil, fmt.Errorf("not a parameter")
+	case ESel:
+		a, t, err := g.staticT(x.X, env)
+		if err != nil {
+			return "", nil, err
+		}
+		if t == nil {
+			return "", nil, fmt.Errorf("type of %s unknown", a)
+		}
+		base := t
+		if pt, ok := types.Unalias(base).Underlying().(*types.Pointer); ok {
+			base = pt.Elem()
+		}
+		st, ok := structOf(base)
+		if !ok {
+			return "", nil, fmt.Errorf("%s is not a struct", a)
+		}
+		for i := 0; i < st.NumFields(); i++ {
+			f := st.Field(i)
+			if f.Name() == x.Name {
+				if !f.Exported() && (f.Pkg() == nil || f.Pkg().Path() != g.rp.fn.Pkg.Pkg.Path()) {
+					return "", nil, fmt.Errorf("field %s.%s is not accessible from package %s", typeKey(base), x.Name, g.rp.fn.Pkg.Pkg.Name())
+				}
+				return a + "." + x.Name, f.Type(), nil
+			}
+		}
+		return "", nil, fmt.Errorf("no field %s", x.Name)
 	case EUn:
 		if x.Op == "*" {
-			a, err := g.static(x.X, env)
+			a, t, err := g.staticT(x.X, env)
 			if err != nil {
-				return "", err
+				return "", nil, err
 			}
-			return "(*" + a + ")", nil
+			var et types.Type
+			if t != nil {
+				if pt, ok := types.Unalias(t).Underlying().(*types.Pointer); ok {
+					et = pt.Elem()
+				}
+			}
+			return "(*" + a + ")", et, nil
 		}
 	case EIdx:
-		a, err := g.static(x.X, env)
+		a, t, err := g.staticT(x.X, env)
 		if err != nil {
-			return "", err
+			return "", nil, err
 		}
 		i, err := g.compile(x.I, env)
 		if err != nil {
-			return "", err
+			return "", nil, err
 		}
-		return fmt.Sprintf("%s[func() int { n, _ := rpInt(%s); return int(n) }()]", a, i), nil
+		var et types.Type
+		if t != nil {
+			switch u := types.Unalias(t).Underlying().(type) {
+			case *types.Slice:
+				et = u.Elem()
+			case *types.Basic:
+				et = types.Typ[types.Uint8]
+			}
+		}
+		return fmt.Sprintf("%s[func() int { n, _ := rpInt(%s); return int(n) }()]", a, i), et, nil
 	}
-	return "", fmt.Errorf("not an access path")
+	return "", nil, fmt.Errorf("not an access path")
 }
 
 func (g *goCompiler) old(code string) string {
@@ -1453,8 +1555,8 @@ func (g *goCompiler) call(x ECall, env map[string]string) (string, error) {
 	if lib, ok := map[string]string{
 		"uspace": "any(unicode.IsSpace(rune(rpI(%s))))", "ucontrol": "any(unicode.IsControl(rune(rpI(%s))))",
 		"uprint": "any(unicode.IsPrint(rune(rpI(%s))))", "upunct": "any(unicode.IsPunct(rune(rpI(%s))))",
-		"uupper": "any(int64(unicode.ToUpper(rune(rpI(%s)))))", "strlower": "any(strings.ToLower(rpStr(%s).(string)))",
-		"strtrim": "any(strings.TrimSpace(rpStr(%s).(string)))", "validrune": "any(utf8.ValidRune(rune(rpI(%s))))",
+		"uupper": "any(int64(unicode.ToUpper(rune(rpI(%s)))))", "strlower": "any(strings.ToLower(rpGoStr(%s)))",
+		"strtrim": "any(strings.TrimSpace(rpGoStr(%s)))", "validrune": "any(utf8.ValidRune(rune(rpI(%s))))",
 		"clean": "rpClean(%s)", "san": "rpSan(%s)",
 	}[x.Fun]; ok && len(x.Args) == 1 {
 		if err := argv(); err != nil {
@@ -1495,8 +1597,12 @@ func (g *goCompiler) call(x ECall, env map[string]string) (string, error) {
 	var dynArgs []string
 	for i, p := range sd.Params {
 		// an argument that is an access path rooted at a parameter stays a Go path inside the body (x.f works)
-		if path, err := g.static(x.Args[i], env); err == nil {
+		if path, pt, err := g.staticT(x.Args[i], env); err == nil {
 			env2[p.Name] = "\x00" + path
+			if g.staticTypes == nil {
+				g.staticTypes = map[string]types.Type{}
+			}
+			g.staticTypes[path] = pt
 			continue
 		}
 		n := fmt.Sprintf("rps%d_%s", g.depth, p.Name)
